@@ -117,6 +117,32 @@ class ProgGen:
         return {"uid": self.uid, "src": src + "\n".join(calls) + "\n", "n": n, "bad": len(bad)}
 
 
+def wide_program(rng, uid):
+    """many small methods finishing at nearly the same moment (contention on every structure the body checkers share):
+    constants initialised by method calls, methods reading the constant they initialise (circular: one diagnostic each),
+    ill-typed bodies, plain methods"""
+    k = rng.choice([60, 150, 300])
+    mod = f"W{uid}"
+    consts, methods = [], []
+    ncyc = 0
+    for i in range(k):
+        r = rng.random()
+        c = f"WC{uid}x{i}"
+        if r < 0.45:
+            consts.append(f"const {c}: Int = {mod}.f{i}")
+            methods.append(f"  def f{i}: Int; {c}; end")
+            ncyc += 1
+        elif r < 0.65:
+            consts.append(f"const {c}: Int = {mod}.f{i}")
+            methods.append(f"  def f{i}: Int; {i}; end")
+        elif r < 0.75:
+            methods.append(f"  def f{i}: Int; \"s{i}\"; end")
+        else:
+            methods.append(f"  def f{i}: Int; {i} + 1; end")
+    src = "\n".join(consts) + f"\nmodule {mod}\n" + "\n".join(methods) + f"\nend\nprintln({mod}.f0)\n"
+    return {"uid": uid, "src": src, "n": k, "bad": ncyc, "wide": True}
+
+
 CONFIGS_QUICK = [(1, 0), (1, 11), (2, 21), (2, 22), (100, 0), (100, 31), (100, 32)]
 
 
@@ -250,6 +276,47 @@ def race_reports(stderr):
     return out
 
 
+def run_wide(ctx, wide):
+    # limit 1 first (the reference), then many parallel runs: real contention, not only the seeded permutation
+    cfgs = [(1, 0)] + [(lim, s) for s in range(ctx.n(3, 8)) for lim in (2, 3, 8, 100, 1000)]
+    recs, _ = evaluate(wide, cfgs)
+    ok, reported = True, 0
+    for rec in recs:
+        p = rec["prog"]
+        ctx.case(p["src"], nontrivial=True, sample={"program": p["src"][:300], "verdict": rec["base"][0], "diagnostics": len(rec["base"][1])})
+        ctx.stat(f"wide-methods:{p['n']}")
+        ctx.stat("runs", len(cfgs))
+        if rec["fails"]:
+            kind, detail, cfg = rec["fails"][0]
+            if reported < 2:
+                reported += 1
+                if ctx.violation(kind, {"program": p["src"], "configs": [list(cfgs[0]), list(cfg)] + [list(c) for c in cfgs[1:6]]},
+                                 detail + f" ({len(rec['fails'])} of {len(cfgs)} runs differ)"):
+                    ok = False
+                else:
+                    reported -= 1
+            else:
+                ok = False
+    ctx.obligation(f"wide modules (60-300 methods, constants initialised by method calls, circular ones): same diagnostics under "
+                   f"{len(cfgs)} (limit, seed) runs on {len(wide)} programs", ok, "correspondence")
+
+
+def race_sample(ctx, progs, cfgs):
+    okb, log = build_race_harness()
+    if not okb:
+        ctx.obligation("go build -race of the harness", False, "build", log[-600:])
+        return
+    recs, stderr = evaluate(progs, cfgs, binary=vlib.ELKH + "-race", workers=3)
+    reps = race_reports(stderr)
+    ctx.stat("race-runs", len(progs) * len(cfgs))
+    unknown = 0
+    for r in sorted(set(reps))[:8]:
+        if ctx.violation("data-race", {"race": r}, f"the Go race detector reported a data race while checking generated programs: {r}"):
+            unknown += 1
+    ctx.obligation(f"no data race (other than the listed known findings) reported by `go build -race` over {len(progs) * len(cfgs)} checker runs",
+                   unknown == 0, "race-detector", "; ".join(sorted(set(reps))[:3]))
+
+
 def run(ctx):
     ctx.rule = ("(1) concurrent.Foreach over 0..N-1 for N up to 100 and limits 1..100 under seeded schedules; (2) modules with 2-12 "
                 "methods calling each other (closures, collections, catch, symbols, optional class with ivars, method-using constant, "
@@ -268,6 +335,8 @@ def run(ctx):
         vlib.correspond(ctx, lines, oracle=fe_oracle, label="Foreach")
         progs = [ProgGen(ctx.rng, f"{ctx.seed}x{i}").program() for i in range(ctx.n(30, 300))]
         cfgs = configs(ctx, ctx.rng)
+        wide = [wide_program(ctx.rng, f"{ctx.seed}w{i}") for i in range(ctx.n(4, 30))]
+        run_wide(ctx, wide)
     ok = True
     reported = 0
     B = 40
@@ -291,19 +360,8 @@ def run(ctx):
                     ok = False
     ctx.obligation(f"same diagnostics multiset and output under {len(cfgs)} (limit, schedule seed) configurations on {len(progs)} programs",
                    ok, "correspondence")
-    if not ctx.quick and not ctx.replay:
-        okb, log = build_race_harness()
-        if not okb:
-            ctx.obligation("go build -race of the harness", False, "build", log[-600:])
-            return
-        rprogs = progs[:150]
-        rcfgs = [(100, 0), (100, 41), (2, 42), (100, 43)]
-        recs, stderr = evaluate(rprogs, rcfgs, binary=vlib.ELKH + "-race", workers=3)
-        reps = race_reports(stderr)
-        ctx.stat("race-runs", len(rprogs) * len(rcfgs))
-        unknown = 0
-        for r in sorted(set(reps))[:8]:
-            if ctx.violation("data-race", {"race": r}, f"the Go race detector reported a data race while checking generated programs: {r}"):
-                unknown += 1
-        ctx.obligation(f"no data race (other than the listed known findings) reported by `go build -race` over {len(rprogs) * len(rcfgs)} checker runs",
-                       unknown == 0, "race-detector", "; ".join(sorted(set(reps))[:3]))
+    if not ctx.replay:
+        if ctx.quick:
+            race_sample(ctx, progs[:12] + wide[:1], [(100, 0), (2, 42)])
+        else:
+            race_sample(ctx, progs[:150] + wide[:4], [(100, 0), (100, 41), (2, 42), (100, 43)])
